@@ -131,6 +131,38 @@ def floor(ctx):
                 if got2 != want and len(viol) < 10:
                     viol.append({'clause': 'C16:read-index', 'input': {'symbols': present, 'n_symbols': len(tri)},
                                  'detail': 'got %r want %r' % (got2, want)})
+    # "... which is what ring and branch symbols with suffix 1, 2, 3 can carry": end to end, a branch of Q + 1 atoms and
+    # a ring bond spanning Q + 2 atoms are written as [BranchK] / [RingK] followed by the K digits of Q, and read back
+    import selfies as sf
+    sf.set_semantic_constraints('default')
+    for Q in (0, 1, 14, 15, 16, 17, 254, 255, 256, 257, 4094, 4095):
+        digits = []
+        q = Q
+        while True:
+            digits.append(spec[q % 16])
+            q //= 16
+            if q == 0:
+                break
+        digits = digits[::-1]
+        for kind, smi in (('Branch', 'N(' + 'C' * (Q + 1) + ')O'), ('Ring', 'N1' + 'C' * (Q + 1) + '1O')):
+            if kind == 'Ring' and Q == 0:
+                continue        # a ring bond between neighbours in the chain does not exist
+            ev += 1
+            want = '[%s%d]' % (kind, len(digits)) + ''.join(digits)
+            try:
+                sel = sf.encoder(smi)
+                back = sf.decoder(sel)
+                natoms = back.count('C') + back.count('N') + back.count('O')
+                r = None
+                if want not in sel:
+                    r = 'encoder output lacks %r' % want
+                elif natoms != Q + 3:
+                    r = 'decoder read the index back wrongly: %d atoms instead of %d' % (natoms, Q + 3)
+            except Exception as e:
+                r = 'raised %r' % (e,)
+            if r and len(viol) < 12:
+                viol.append({'clause': 'C16:carried-by-ring-and-branch-symbols', 'input': {'smiles_shape': kind, 'Q': Q},
+                             'detail': 'Q = %d as a %s: %s' % (Q, kind, r[:300])})
     samples = [{'n': 57, 'symbols': G.get_selfies_from_index(57)}, {'symbols': ['[C]', '[Branch1]', '[O]'],
                'index': G.get_index_from_selfies('[C]', '[Branch1]', '[O]')}]
     return {'evaluations': ev, 'distinct_nontrivial': len(distinct) + 4095,
@@ -157,6 +189,17 @@ def replay_input(d):
                 return True, 'IndexError raised'
         r = _check_n(inp['n'], spec)
         return r is None, r
+    if 'Q' in inp:
+        import selfies as sf
+        Q, kind = inp['Q'], inp['smiles_shape']
+        smi = ('N(' + 'C' * (Q + 1) + ')O') if kind == 'Branch' else ('N1' + 'C' * (Q + 1) + '1O')
+        try:
+            sel = sf.encoder(smi)
+            back = sf.decoder(sel)
+            n = back.count('C') + back.count('N') + back.count('O')
+            return n == Q + 3, 'encoder/decoder gave %d atoms for Q=%d (%s...)' % (n, Q, sel[:60])
+        except Exception as e:
+            return False, 'raised %r' % (e,)
     tri = inp['symbols']
     want = 0
     for s in tri:
